@@ -963,10 +963,10 @@ PROPS = {
                                   "C05_refused_not_charged", "C05_clear_is_fresh", "C05_gc_complete", "C05_oom_only_when_reachable_full", "C05_reachable_fits_never_oom", "C05_live_bytes_counts"]},
         n_quick=60, n_thorough=600,
         gates=["trace.alloc_refused", "trace.run_ended_OutOfMemory", "trace.collected>2",
-               "trace.collection_released_something", "gc_case.mid_run", "prog=string_churn", "prog=closures"],
+               "trace.collection_released_something", "gc_case.mid_run", "prog=string_churn", "prog=closures", "strings.empty"],
         rule="hand-written churn programs (garbage strings, garbage tables, growing table, closures with captured "
              "locals, nested/shared tables with for-each, inline and dropped closures, stdlib callbacks that "
-             "allocate) scaled by n in {5,30,120,400} and string length in {4,32,200}, run 1-3 times with clear in "
+             "allocate) scaled by n in {5,30,120,400} and string length in {0,4,32,200} (0 = the empty string, a zero-sized character buffer), run 1-3 times with clear in "
              "between under memory limits 900 B .. 400 KiB; every alloc / dealloc / nested collection is recorded "
              "through the verif-hooks event log with the counters after it and compared with the allocator model "
              "and with a shadow ledger of outstanding allocations; collections inside programs (gc_probe native) "
